@@ -86,13 +86,16 @@ L0Of(files) == {files[j][3] : j \in {k \in 1..Len(files) : files[k][1] = 0}}
 D_Level0OneRun_ ==
   (IsStep /\ stopped) => /\ \A j \in 1..Len(cur.remote) : cur.remote[j][1] = 0 => cur.remote[j][2] = cur.remote[j][3]
                          /\ LET ids == L0Of(cur.remote) IN ids = {} \/ \A a \in ids : \A b \in a..cur.rpos : b \in ids
-\* (claimed, as C06 is, for histories without storage faults)
+\* (claimed, as C06 is, for histories without storage faults.  The daemon's snapshot retention deletes, on every level, the files
+\* below the oldest kept snapshot - also files a higher level has not compacted yet - so below that floor a level may have holes
+\* by design; contiguity is required from the floor upwards, non-overlap everywhere)
+Floor(files) == LET snaps == FilesAt(files, 9) IN IF snaps = {} THEN 0 ELSE CHOOSE m \in {f[3] : f \in snaps} : \A f \in snaps : m <= f[3]
 D_LevelsContiguous_ ==
   (IsStep /\ stopped /\ ~cur.cfg.faults) =>
-     \A lvl \in 1..8 : LET fs == FilesAt(cur.remote, lvl) IN
+     \A lvl \in 1..8 : LET fs == FilesAt(cur.remote, lvl)  fl == Floor(cur.remote) IN
         /\ \A f \in fs : f[2] <= f[3]
         /\ \A f \in fs : \A g \in fs : (f # g) => (f[3] < g[2] \/ g[3] < f[2])
-        /\ \A f \in fs : (\A g \in fs : g[2] >= f[2]) \/ (\E g \in fs : g[3] + 1 = f[2])
+        /\ \A f \in fs : (f[2] <= fl + 1) \/ (\A g \in fs : g[2] >= f[2]) \/ (\E g \in fs : g[3] + 1 = f[2])
 D_SnapshotKept_ == (IsStep /\ stopped /\ snapSeen) => HasSnap(cur)
 
 (* C05: once failures stop the replica catches up: the second of two consecutive fault-free acknowledged-sync requests succeeds *)
